@@ -60,7 +60,7 @@ def run(ctx):
     # includes programs that are not the one under test, and state a back end keeps between compiles
     # (static buffers, caches) only shows when some other program has left something in it
     tfs = O.replay(ctx, "hook", lines, "c17",
-                   env_of_shard=lambda i: {"ORC_DEBUG": dbg[i % 3], "H_POLLUTE": "6" if i % 2 else "0"})
+                   env_of_shard=lambda i: {"ORC_DEBUG": dbg[i % 3], "H_POLLUTE": ("6" if quick else "2") if i % 2 else "0"})
     # one validation over everything: the image ghost then spans processes and debug levels
     allf = os.path.join(ctx.work, "c17_all.ndjson")
     with open(allf, "w") as f:
